@@ -243,6 +243,11 @@ static void abs_havoc_links(void)
 }
 static void abs_heap_insert(heap_head_t *head, heap_node_t *node, heap_node_compare_t cmp)
 {
+#ifdef C03_DEBUG
+	if (g_mcur && IS_NODE(node, g_ua)) REACH("dbg second insert reached");
+	if (g_mcur) REACH("dbg insert with mcur set");
+	if (IS_NODE(node, g_ua)) REACH("dbg insert ua");
+#endif
 	VASSERT(cmp == stream_cmp, "abstract heap: the comparator is stream_cmp");
 	VASSERT(HEAP_ABS_INV(head), "abstract heap: invariant holds when heap_insert is called");
 	VASSERT(IS_NODE(node, g_ucur) || IS_NODE(node, g_ua) || IS_NODE(node, g_ub), "abstract heap: the inserted node is the hh of a known stream");
@@ -514,6 +519,9 @@ __CPROVER_requires(g_pi_act0 == (g_pi_n >= 1 && g_ucur->active != 0) && g_pi_act
 __CPROVER_requires((g_pi_n < 1 || g_pi_uns0 == g_ucur->unsorted) && g_pi_uns1 == g_ua->unsorted && g_pi_uns2 == g_ub->unsorted)
 __CPROVER_requires(DIAG_PRE && LOG_PRE && g_mcur == 0 && g_ma == 0 && g_mb == 0 && g_others == 0)
 __CPROVER_requires(WBIND(player_init, w_pi_n == g_pi_n && w_pi_unsorted == unsorted))
+#ifdef C03_DEBUG
+__CPROVER_requires(g_pi_n <= 2 && unsorted != 0)
+#endif
 __CPROVER_assigns(*player, STEP_FRAME(g_ua), g_ua->unsorted, STEP_FRAME(g_ub), g_ub->unsorted, DIAG_FRAME, ABS_FRAME)
 __CPROVER_assigns(g_ucur != NULL: STEP_FRAME(g_ucur), g_ucur->unsorted)
 __CPROVER_ensures(RV == 0 || RV == -1)
@@ -545,6 +553,16 @@ void h_player_init(void)
 	WITNESS_ON(player_init);
 	int r = player_init(p, t, unsorted);
 	if (r == 0 && w_pi_n == 0) REACH("empty trace");
+#ifdef C03_DEBUG
+	if (w_pi_n == 2) REACH("dbg n2");
+	if (w_pi_n == 3) REACH("dbg n3");
+	if (w_pi_n == 2 && g_pi_act0 && g_pi_act1) REACH("dbg n2 both active");
+	if (w_pi_n == 2 && g_mcur && g_ma) REACH("dbg n2 both inserted");
+	if (r == 0 && w_pi_n == 2 && g_mcur && g_ma) REACH("dbg n2 both inserted ok");
+	if (r == 0 && w_pi_n == 3) REACH("dbg n3 ok");
+	if (r == 0 && w_pi_n == 3 && g_mcur) REACH("dbg n3 ok first");
+	if (w_pi_n == 3 && g_mcur && g_ma && g_mb) REACH("dbg n3 all inserted");
+#endif
 	if (r == 0 && w_pi_n == 3 && g_mcur && g_ma && g_mb) REACH("three streams loaded");
 	if (r == 0 && w_pi_n == 3 && g_mcur && !g_ma && g_mb && g_pi_act1) REACH("middle stream has no event");
 	if (r == 0 && w_pi_n == 2 && !g_pi_act0 && g_ma) REACH("inactive stream skipped");
